@@ -22,7 +22,12 @@ def _proj():
     if "d" not in _P:
         d = tempfile.mkdtemp(prefix="c10proj-")
         atexit.register(shutil.rmtree, d, True)
-        triggers.write_project(d, names=set(FILES))
+        # per-language overrides: a cache keyed too coarsely (per run instead of per language) would make a
+        # mixed-language run differ from the union of single-file runs
+        cfg = (triggers.BASE_CONFIG + "nesting:\n  max_nesting_depth: 4\n  typescript:\n    max_nesting_depth: 2\n  rust:\n    max_nesting_depth: 9\n"
+               "srp:\n  max_methods: 7\n  python:\n    max_methods: 3\n  rust:\n    max_methods: 20\n"
+               "magic-numbers:\n  max_small_integer: 10\n  typescript:\n    allowed_numbers: [3975]\n")
+        triggers.write_project(d, names=set(FILES) | {"nest.py", "nest.rs", "srp.rs", "magic.ts"}, config=cfg)
         (Path(d) / "src" / "sub").mkdir()
         (Path(d) / "src" / "sub" / "deep.py").write_text(triggers.T["magic.py"][3].replace("3975", "4801"))
         # a pair of files whose findings would differ if analyzer state leaked from file to file
